@@ -46,6 +46,14 @@ def assign_registers(data: CodeData, code: list[IC10Instruction]):
     called_from = {}
 
     for fname, func in data.functions.items():
+        if fname:
+            # the symbols of a nested function live in the scope '<outer>.<name>'
+            module, _, name = fname.rpartition(".")
+            outer = func.node.parent.scope()
+            while isinstance(outer, nodes.FunctionDef):
+                name = f"{outer.name}.{name}"
+                outer = outer.parent.scope()
+            fname = f"{module}.{name}" if module else name
         called_from[fname] = set()
         if fname == "":
             continue
